@@ -16,13 +16,13 @@ TIE = ('tie to the code = (i) Gen/*.lean re-extracted from the build of the curr
        'translator and drivers, g++/libstdc++ semantics of mirrored operations')
 
 prop('C01', 'proof',
-     'Lean theorems about the move-generator model (Props/C01.lean). PROVED for every Spec.wf position: NO MOVE APPEARS TWICE (C01_no_duplicates: the generated list is duplicate-free — groups told apart by piece kind on the origin and pinned-ness, pawn groups by offset and promotion, en-passant by its empty target, pins on different rays name different squares via kernel-evaluated bit-scan tables) and every generated move is a castling code or the code of an own piece\'s move with promotion exactly on the end ranks (C01_move_shape); PROVED EXACT: the king moves (C01_king_moves_exact: the generator emits k->t iff that king step is legal '
+     'FULLY PROVED in Lean (Props/C01.lean): C01_movegen_exact : C01_Statement — for every Spec.wf position the generated list has no duplicate, every generated move decodes to a move that is legal under the rules, and every legal move is generated (C01_exact: code ∈ genMoves p ↔ ∃ m ∈ Spec.legalMoves (abs p), codeOf m = code; decode_codeOf; C01_no_duplicates). The proof goes by cases. NO EN-PASSANT SQUARE (C01_exact_noep): for every Spec.wf position with ep = none — in single or double check or not, with pinned pieces or not — code ∈ genMoves p ↔ ∃ m ∈ Spec.legalMoves (abs p), codeOf m = code: no illegal move, no legal move missing, all piece kinds, both directions (set-wise pawn groups vs the rules\' per-pawn list, knights via the C11 leaper sets, sliders via Spec.slide = bitboard ray walk, king, castling; pinned pieces move exactly along their pin line; in double check only the king moves; in single check the capture mask is the checker\'s square and the push mask LINES[k][c] minus its end points is the set of empty squares strictly between king and sliding checker, an unpinned piece arriving there leaves the king safe, any other ordinary move leaves the checker in place, a pinned piece has no legal move). WITH AN EN-PASSANT SQUARE: clearing it keeps the position well-formed and removes exactly the en-passant captures from the rules\' legal moves and from the generated list (reduction to the previous case), and an en-passant capture is generated iff it is legal (ep_exact): legality = own king not attacked with the capturer moved and the captured pawn removed; a slider sees the king over that occupancy in exactly four situations; "the double push was itself legal" (part of Spec.wf) excludes the line only the pushed pawn shields and the interposition on the en-passant square; attacked ⇔ another checker remains ∨ the capturer leaves its pin line ∨ capturer and captured pawn alone shielded the king on its rank; the generator\'s rank test = that rank exposure, its mask test = "the only checker is the pushed pawn", its pinned-pawn branch = capture along the pin diagonal out of check. THE PIN SCAN IS SOUND (C01_unpinned_legal). Also PROVED for every Spec.wf position (en-passant square or not): NO MOVE APPEARS TWICE (C01_no_duplicates: the generated list is duplicate-free — groups told apart by piece kind on the origin and pinned-ness, pawn groups by offset and promotion, en-passant by its empty target, pins on different rays name different squares via kernel-evaluated bit-scan tables) and every generated move is a castling code or the code of an own piece\'s move with promotion exactly on the end ranks (C01_move_shape); PROVED EXACT: the king moves (C01_king_moves_exact: the generator emits k->t iff that king step is legal '
      'under the rules; forbidden squares = attacked with the king x-rayed, C01_forbidden_squares), the in-check test (C01_in_check_test), and CASTLING (C01_castling_exact: each of the four castling tests '
      'holds iff the rules list that castling move, every listed castling move survives the legality filter, and the code is emitted, C01_castling_emitted; rests on "lifting an unattacked king uncovers nothing", '
-     'Lemmas/KingLift.lean, and a changed-squares lemma for Spec.attacked, Lemmas/CastleSafe.lean). The full statement genMoves = legalMoves for the other pieces (pins, check evasions, pawn sets, en passant) '
-     'is kept visible as C01_Statement and decided by the three-way differential (C++ / model mirroring movegen.cpp / naive FIDE-rules spec) on the sorted legal move set and perft through do/undo; '
+     'Lemmas/KingLift.lean, and a changed-squares lemma for Spec.attacked, Lemmas/CastleSafe.lean). Nothing of the statement is left to testing; the model is tied to the code by the three-way differential '
+     ' (C++ / model mirroring movegen.cpp / naive FIDE-rules spec) on the sorted legal move set and perft through do/undo; '
      'a broken proof or correspondence triggers a spec-vs-implementation hunt for a concrete position',
-     WF + TIE, 'Lean 4 theorems over an executable model (king moves and castling exact; other pieces partial) + spec-generated differential correspondence', '§12.4 C01')
+     WF + TIE, 'Lean 4 theorems over an executable model (generator exact on every well-formed position: C01_Statement proved) + spec-generated differential correspondence', '§12.4 C01')
 prop('C02', 'proof',
      'REFINEMENT PROVED in Lean (Props/C02.lean: C02_full, C02_replay_legal): for every model position whose six FEN fields satisfy Spec.wf and EVERY move legal under the rules '
      '(Spec.legalMoves), for every Zobrist table, absPos(do_move(code of m)) = Spec.apply m on all six FEN fields, and the same for legal sequences of any length; the move-shape hypothesis is '
@@ -43,7 +43,7 @@ prop('C04', 'proof',
 prop('C07', 'proof',
      'PROVED in Lean (Props/C07.lean): C07_geometry — on every Spec.wf position and for either side the bitboard is_in_check (pawn/knight masks, magic slider lookups; uses C11 for all '
      'occupancies) equals the rules\' ray-walk definition of "king attacked", and the packed-count material test equals "bare kings or a single minor piece"; attack equivalence for any '
-     'square; check-after-move via the C02 refinement; repetition/50-move predicates vs the key history (modulo 64-bit collisions). mate/stalemate = no generated move ± check (modulo C01). '
+     'square; check-after-move via the C02 refinement; repetition/50-move predicates vs the key history (modulo 64-bit collisions). mate/stalemate = the rules\' "no legal move" ± check on every Spec.wf position (C07_mate_stalemate_exact, from C01_exact). '
      'Tie: differential on eight predicates after every op of spec-generated games steered towards repetitions, incl. a 1240-ply game',
      'no 64-bit key collision within a game; clock < 65535; ' + TIE,
      'Lean 4 proof (bitboard attack tests = rules-level attacks, via the C11 table theorem) + differential correspondence', '§12.4 C07')
